@@ -350,7 +350,43 @@ func classifyPanicSite(c *core.Ctx, fn *ssa.Function, in ssa.Instruction) (why, 
 		if sites == 0 {
 			return "", "no call of " + ctor + " found", true
 		}
-		return fmt.Sprintf("all %d call site(s) of %s are under implements(t, %s); the assertion is on *T, whose method set includes T's", sites, ctor, global), "", true
+		// the codec asserts on reflect.NewAt(t, p), a *T: the guard must establish that *T
+		// implements the interface. "T implements" is not enough when T is itself a pointer type
+		// (*M with methods): **M has an empty method set.
+		if impl := c.Lookup("proto.implements"); impl != nil {
+			for _, r := range returnsOf(impl) {
+				if len(r.Results) != 1 {
+					continue
+				}
+				for _, o := range origins(r.Results[0]) {
+					if k, isK := o.(*ssa.Const); isK {
+						if k.Value != nil && k.Value.String() == "true" {
+							return "", "implements(t, iface) also answers true when only t itself implements the interface (t.Implements(iface)): for a pointer type *M that has the methods, the codec then asserts the interface on **M, whose method set is empty — Size/Marshal panic for &M{} and for any struct with a *M field", true
+						}
+						continue
+					}
+					call, isCall := o.(*ssa.Call)
+					if !isCall || !call.Common().IsInvoke() || call.Common().Method.Name() != "Implements" {
+						return "", "implements() returns something else than the result of an Implements call", true
+					}
+					recvOK := false
+					for _, ro := range origins(call.Common().Value) {
+						if rc, isRC := ro.(*ssa.Call); isRC {
+							n := calleeName(rc.Common())
+							if n == "reflect.PointerTo" || n == "reflect.PtrTo" {
+								recvOK = true
+							}
+						}
+					}
+					if !recvOK {
+						return "", "implements(t, iface) answers through t.Implements(iface): for a pointer type *M that has the methods, the codec then asserts the interface on **M, whose method set is empty — Size/Marshal panic for &M{} and for any struct with a *M field", true
+					}
+				}
+			}
+		} else {
+			return "", "proto.implements not found", true
+		}
+		return fmt.Sprintf("all %d call site(s) of %s are under implements(t, %s), which answers PointerTo(t).Implements(iface): exactly what the assertion on *T needs", sites, ctor, global), "", true
 	}
 	return "", "", false
 }
